@@ -474,6 +474,22 @@ func raceRun(body []byte) *core.Verdict {
 					}
 					var sb strings.Builder
 					e.Print(&sb)
+					// the entry trees of the submodules themselves are part of the processed set
+					for _, sn := range []string{"s4", "s6a", "s6b"} {
+						se := yang.ToEntry(ms.SubModules[sn])
+						for _, c := range se.Dir {
+							if ns := c.Namespace(); ns == nil || (ns.Name != "urn:m4" && ns.Name != "urn:m6") {
+								report(fmt.Sprintf("Namespace of %s/%s in the submodule's own tree: %v", sn, c.Name, ns))
+							}
+							if m, err := c.InstantiatingModule(); err != nil || (m != "m4" && m != "m6") {
+								report(fmt.Sprintf("InstantiatingModule of %s/%s in the submodule's own tree: %s %v", sn, c.Name, m, err))
+							}
+							for _, cc := range c.Dir {
+								cc.Namespace()
+								cc.ReadOnly()
+							}
+						}
+					}
 				case 1: // a pipeline on a private set
 					own, err := sharedSet()
 					if err != nil {
